@@ -22,4 +22,13 @@ def GoodCacheLocks : Prop :=
   cacheUnlockedMethods = [] ∧ cacheLockedMethods = ["Cleanup", "Delete", "Get", "Set"] ∧ cachePrivateCalledOnlyLocked = true
 instance : Decidable GoodCacheLocks := by unfold GoodCacheLocks; infer_instance
 
+/-- C14: listing period 24 h, accepted skew 2 min (the numbers enter `revTTL_covers` only as non-negativity; the values
+are the ones the property text and C02 name) -/
+def GoodVerify : Prop := factsComplete = true ∧ blacklistDurationSec = 86400 ∧ skewFutureSec = 120 ∧ 0 < defaultMaxSize
+instance : Decidable GoodVerify := by unfold GoodVerify; infer_instance
+
+/-- C19: the limiter is built as `rate.NewLimiter(rate.Limit(config.RateLimit), config.RateLimit)`: refill = burst = rateLimit -/
+def GoodLimiter : Prop := limiterRateIsConfigPerSecond = true ∧ limiterBurstIsConfig = true
+instance : Decidable GoodLimiter := by unfold GoodLimiter; infer_instance
+
 end Oidc.Facts
